@@ -144,5 +144,30 @@ Definition site_classes : list site_entry := [
   mkClass "lib.rs" "ExecContext::freeze_wasm_plugin_fns"
           "acc.extend(map);"
           "513978ee72" OrderInsensitive
-          "entries of one plugin's map (pairwise different names) are inserted into another HashMap; clashes between plugins are resolved by the Vec order of sys_plugins"
+          "entries of one plugin's map (pairwise different names) are inserted into another HashMap; clashes between plugins are resolved by the Vec order of sys_plugins";
+  (* --- the same sites after corpus/C15/proposed_fixes.diff (F20/F21: declaration maps walked in name order) --- *)
+  mkClass "compiler/typing.rs" "sorted_by_name"
+          "let mut entries: Vec<_> = map.iter().collect();"
+          "92a4c390a1" Canonicalised
+          "collected into a Vec that is sorted by the key's name string before it is returned; map keys are pairwise different symbols, hence pairwise different strings (Sort.sorted_canonical)";
+  mkClass "compiler/typing.rs" "InferContext::register_type_declarations"
+          "for (type_name, decl_info) in sorted_by_name(type_declarations) {"
+          "1ee0610a92" Canonicalised
+          "iterates the Vec returned by sorted_by_name: the map's entries sorted by the NAME string of their key (pairwise different keys), a canonical and history-independent order (Sort.sorted_canonical)";
+  mkClass "compiler/typing.rs" "InferContext::register_type_declarations"
+          "for (type_name, decl_info) in sorted_by_name(type_declarations) {  #2"
+          "1ee0610a92" Canonicalised
+          "iterates the Vec returned by sorted_by_name: the map's entries sorted by the NAME string of their key (pairwise different keys), a canonical and history-independent order (Sort.sorted_canonical); a constructor name shared by two recursive sum types now denotes the type whose name sorts last, in every compilation";
+  mkClass "compiler/typing.rs" "InferContext::register_type_declarations"
+          "for (type_name, decl_info) in sorted_by_name(type_declarations) {  #3"
+          "1ee0610a92" Canonicalised
+          "iterates the Vec returned by sorted_by_name: the map's entries sorted by the NAME string of their key (pairwise different keys), a canonical and history-independent order (Sort.sorted_canonical); a constructor name shared by two sum types now denotes the type whose name sorts last, in every compilation";
+  mkClass "compiler/typing.rs" "InferContext::check_type_declaration_recursion"
+          "for (type_name, decl_info) in sorted_by_name(type_declarations) {"
+          "14e38596eb" Canonicalised
+          "iterates the Vec returned by sorted_by_name: the map's entries sorted by the NAME string of their key (pairwise different keys), a canonical and history-independent order (Sort.sorted_canonical): the diagnostics come out in name order";
+  mkClass "compiler/typing.rs" "InferContext::register_type_aliases"
+          "for (alias_name, target_type) in sorted_by_name(type_aliases) {"
+          "0a078ca379" Canonicalised
+          "iterates the Vec returned by sorted_by_name: the map's entries sorted by the NAME string of their key (pairwise different keys), a canonical and history-independent order (Sort.sorted_canonical)"
 ].
